@@ -123,13 +123,13 @@ pub struct Case {
     pub ctx: u8,
     pub words: bool,
 }
-pub const CTX_NAMES: [&str; 13] = [
+pub const CTX_NAMES: [&str; 15] = [
     "INTEGER-assignment", "INTEGER-component", "constrained-reference-assignment", "constrained-reference-component", "value-reference-endpoints", "named-number-endpoints",
-    "OCTET-STRING-SIZE-assignment", "BIT-STRING-SIZE-component", "IA5String-SIZE-assignment", "SEQUENCE-OF-SIZE-assignment", "SET-OF-SIZE-component", "BMPString-SIZE-component", "named-numbers-of-referenced-type",
+    "OCTET-STRING-SIZE-assignment", "BIT-STRING-SIZE-component", "IA5String-SIZE-assignment", "SEQUENCE-OF-SIZE-assignment", "SET-OF-SIZE-component", "BMPString-SIZE-component", "named-numbers-of-referenced-type", "INTEGER-object-set-alternative", "OCTET-STRING-SIZE-object-set-alternative",
 ];
 impl Case {
     fn is_size(&self) -> bool {
-        (6..=11).contains(&self.ctx)
+        (6..=11).contains(&self.ctx) || self.ctx == 14
     }
     fn key(&self) -> String {
         let mut n = vec![];
@@ -206,6 +206,13 @@ impl Case {
                     src.push_str(&format!("Ta{n}decoy ::= INTEGER {{ {} }}\nTb{n}gov ::= INTEGER {{ {} }}\nTq{n} ::= Tb{n}gov {c}\n", dd.join(", "), nn.join(", ")));
                 }
                 (format!("Tq{n}"), None)
+            }
+            13 | 14 => {
+                // alternative of an information object set (compiled with `opaque_open_types: false`): the bound sits on the
+                // delegate `Inner_Sq<n>_Type_0`
+                let ty = if self.ctx == 13 { format!("INTEGER {c}") } else { format!("OCTET STRING {sz}") };
+                src.push_str(&format!("Sq{n} CLQ ::= {{ {{ {ty} IDENTIFIED BY 0 }} }}\nHq{n} ::= SEQUENCE {{ id CLQ.&id ({{Sq{n}}}), val CLQ.&Type ({{Sq{n}}}{{@id}}) }}\n"));
+                (format!("Inner_Sq{n}_Type_0"), None)
             }
             6 => {
                 src.push_str(&format!("Tq{n} ::= OCTET STRING {sz}\n"));
@@ -339,13 +346,17 @@ fn judge(case: &Case, obs: &Option<(Iv, bool)>) -> Vec<(String, String)> {
 }
 
 fn check_batch(cases: &[Case], rep: &mut Report) {
+    let object_sets = cases.iter().any(|c| c.ctx >= 13);
     let mut src = String::from("Mq1 DEFINITIONS AUTOMATIC TAGS ::= BEGIN\nTz ::= INTEGER\n");
+    if object_sets {
+        src.push_str("CLQ ::= CLASS { &id INTEGER UNIQUE, &Type } WITH SYNTAX { &Type IDENTIFIED BY &id }\n");
+    }
     let mut locs = vec![];
     for (n, c) in cases.iter().enumerate() {
         locs.push(c.emit(n, &mut src));
     }
     src.push_str("END\n");
-    let run = comp::rasn1(&src);
+    let run = if object_sets { comp::rasn(&[src.clone()], &comp::Cfg { opaque_open_types: false, ..comp::Cfg::default_cfg() }) } else { comp::rasn1(&src) };
     let mods = match &run.out {
         comp::Outcome::Ok { generated, .. } => proj::project(generated).ok(),
         _ => None,
@@ -390,6 +401,7 @@ fn check_batch(cases: &[Case], rep: &mut Report) {
                 0 | 4 | 5 => "assignment",
                 1 => "component",
                 2 | 3 | 12 => "constrained-reference",
+                13 | 14 => "object-set-alternative",
                 _ => "size",
             };
             // root-cause classes of the known folding defects (spec-side conditions only); everything else keeps its exact shape
@@ -487,7 +499,7 @@ pub fn run(ctx: &Ctx) -> Report {
         "exploration",
         "subtype expressions as unions of intersections of (atom [EXCEPT atom]) or ALL EXCEPT atom; atoms = single values, a..b, MIN..b, a..MAX, MIN..MAX over an endpoint alphabet; optional outer `, ...`; optional second serial constraint; spelled with | ^ or UNION INTERSECTION; endpoints as literals, value references or named numbers; on INTEGER (assignment, component, constrained reference) and via SIZE on OCTET STRING, BIT STRING, IA5String, BMPString, SEQUENCE OF, SET OF. EXHAUSTIVE for <= 2 atoms over the 5-point alphabet {-300,-1,0,5,300} (SIZE: {0,1,5,255,300}) in the INTEGER-assignment, INTEGER-component and OCTET-STRING-SIZE contexts; seeded random for 3..4 atoms, the 7-point alphabet, serial constraints and the remaining contexts. Oracle: emitted value()/size()/Fixed*String<n> = hull of the PER-visible set (EXCEPT ignored, ^ intersects, | unites), never excluding a permitted value (exact set semantics), extensible flag = marker. Expressions whose exact set is empty are skipped; cases the compiler rejects or warns about are not claims. Non-trivial = bound compared; distinct by constraint text and context.",
     );
-    rep.must_observe = vec!["bounds_compared".into(), "bounds_compared[INTEGER-component]".into(), "bounds_compared[OCTET-STRING-SIZE-assignment]".into()];
+    rep.must_observe = vec!["bounds_compared".into(), "bounds_compared[INTEGER-object-set-alternative]".into(), "bounds_compared[INTEGER-component]".into(), "bounds_compared[OCTET-STRING-SIZE-assignment]".into()];
     rep.assumptions = vec!["X.691 10.3 as implemented in c04.rs (Expr::per_visible) over the brute-force-tested interval sets of iv.rs".into(), "parenthesised sub-expressions and open ranges (`<`) are rejected by the compiler's parser and therefore not claims".into()];
     let e5: [i128; 5] = [-300, -1, 0, 5, 300];
     let s5: [i128; 5] = [0, 1, 5, 255, 300];
@@ -517,6 +529,21 @@ pub fn run(ctx: &Ctx) -> Report {
             cases.push(Case { expr: e.clone(), ext, serial: None, ctx: 6, words: false });
         }
     }
+    // alternatives of an information object set (generator path of its own: delegate structs built in
+    // generate_information_object_set): one- and two-operand expressions
+    let mut os_cases: Vec<Case> = vec![];
+    for e in two_operand(&at).into_iter().step_by(3) {
+        for ext in [false, true] {
+            os_cases.push(Case { expr: e.clone(), ext, serial: None, ctx: 13, words: false });
+        }
+    }
+    for e in two_operand(&sat).into_iter().step_by(3) {
+        for ext in [false, true] {
+            os_cases.push(Case { expr: e.clone(), ext, serial: None, ctx: 14, words: false });
+        }
+    }
+    // (EXCEPT together with a marker is a known finding of the folding itself, listed for the other contexts)
+    os_cases.retain(|c| !c.sets().0.is_empty() && !(c.ext && (c.expr.all_except.is_some() || c.expr.terms.iter().flatten().any(|(_, e)| e.is_some()))));
     rep.exhaustive = Some(true);
     rep.extra.insert("exhaustive_two_operand_cases".into(), json!(cases.len()));
     let at7 = atoms(&e7, false);
@@ -533,7 +560,8 @@ pub fn run(ctx: &Ctx) -> Report {
     // illegal (empty) constraints are not generated
     cases.retain(|c| !c.sets().0.is_empty() && c.expr.n_atoms() <= 4);
     let acc = Acc::new(rep);
-    let chunks: Vec<&[Case]> = cases.chunks(120).collect();
+    let mut chunks: Vec<&[Case]> = os_cases.chunks(40).collect();
+    chunks.extend(cases.chunks(120));
     par_for(chunks.len() as u64, |i| {
         let mut local = Report::default();
         check_batch(chunks[i as usize], &mut local);
